@@ -128,12 +128,72 @@ def run_paths(stmts, env, slices, decide, out, marker):
     run_paths(rest, env, slices, decide, out, marker)
 
 
+def split_form(f, lp):
+    """`for i, lit in enumerate(<parts>[:-1])` with <parts> = <pattern_out>.split(<marker>): (index name, literal name, parts expr, at)"""
+    it = lp.iter
+    if not (isinstance(it, ast.Call) and dotted(it.func) == 'enumerate' and len(it.args) == 1 and isinstance(lp.target, ast.Tuple)
+            and len(lp.target.elts) == 2 and all(isinstance(e, ast.Name) for e in lp.target.elts)):
+        return None
+    a = it.args[0]
+    if not (isinstance(a, ast.Subscript) and isinstance(a.slice, ast.Slice) and a.slice.lower is None and a.slice.step is None
+            and isinstance(a.slice.upper, ast.UnaryOp) and isinstance(a.slice.upper.op, ast.USub) and is_const(a.slice.upper.operand, 1)):
+        return None
+    at = f.cfg.nodes_for(lp)[0]
+    parts = T.expand(f, a.value, at)
+    if not (isinstance(parts, ast.Call) and call_attr(parts) == 'split' and len(parts.args) == 1 and is_const(parts.args[0], '\r')
+            and src(parts.func.value) in ('self.pattern_out',)):
+        return None
+    return lp.target.elts[0].id, lp.target.elts[1].id, a.value, at
+
+
+def check_url_split_form(P, R, f, lp):
+    """url() built over pattern_out.split(marker): N markers give N + 1 literals; iteration i emits literal i then value i, the last
+    literal follows the loop.  str.split keeps empty literals, so the indices stay in step by construction."""
+    g = f.cfg
+    idx, lit, parts_expr, at = split_form(f, lp)
+    apps = [c for c in walk_shallow(lp) if isinstance(c, ast.Call) and call_attr(c) == 'append' and len(c.args) == 1 and T.loops_of(c) and T.loops_of(c)[0] is lp]
+    lit_apps = [c for c in apps if isinstance(c.args[0], ast.Name) and c.args[0].id == lit]
+    val_apps = [c for c in apps if c not in lit_apps]
+    ok = len(lit_apps) == 1 and len(val_apps) >= 1 and len({src(c.func.value) for c in apps}) == 1
+    if ok:
+        ln = g.node_of_stmt(lit_apps[0])[0]
+        head = g.nodes_for(lp)[0]
+        # the literal is appended before the value in the same iteration, and skipping it is only possible when it is empty
+        ok = all(g.can_reach(ln, g.node_of_stmt(v)[0], avoid_nodes=[head]) and not g.can_reach(g.node_of_stmt(v)[0], ln, avoid_nodes=[head]) for v in val_apps)
+        t = enclosing(lit_apps[0], ast.If)
+        if t is not None and T._inside(t, lp.body):
+            ok = ok and isinstance(t.test, ast.Name) and t.test.id == lit and not t.orelse
+    R.ob('C19.c', f, lp, ok, text='[split form] each iteration emits literal i, then the value of wildcard i', detail='' if ok else
+         'the literal before a wildcard is not emitted exactly once before its value')
+    # trailing literal
+    seen, after = False, []
+    for st in f.node.body:
+        if st is lp:
+            seen = True
+        elif seen:
+            after.append(st)
+    last = [c for st in after for c in walk_shallow(st) if isinstance(c, ast.Call) and call_attr(c) == 'append' and len(c.args) == 1
+            and isinstance(c.args[0], ast.Subscript) and src(c.args[0].value) == src(parts_expr) and isinstance(c.args[0].slice, ast.UnaryOp)
+            and is_const(c.args[0].slice.operand, 1)]
+    ok = len(last) == 1
+    R.ob('C19.c', f, last[0] if last else f.node, ok, text='[split form] trailing literal <parts>[-1] emitted after the loop', detail='' if ok else
+         'the literal text after the last wildcard is not emitted')
+    rets = [n for n in walk_shallow(f.node) if isinstance(n, ast.Return) and isinstance(n.value, ast.Call) and call_attr(n.value) == 'join']
+    ok = bool(rets) and is_const(rets[-1].value.func.value, '')
+    R.ob('C19.c', f, rets[-1] if rets else f.node, ok, text="return ''.join(parts)", detail='' if ok else 'the parts are not concatenated in order', nontrivial=False)
+    R.rules['C19.c']['floor'] = min(R.rules['C19.c']['floor'], 3)
+
+
 def check_url_loop(P, R):
     f = P.func(f'{RR}:Route.url')
     fors = [n for n in walk_shallow(f.node) if isinstance(n, ast.For)]
     R.require(len(fors) == 1, 'Route.url: marker loop not found')
     lp = fors[0]
-    R.require(isinstance(lp.target, ast.Name), 'Route.url: loop target')
+    if split_form(f, lp) is not None:
+        return check_url_split_form(P, R, f, lp)
+    if not isinstance(lp.target, ast.Name):
+        R.undecided('C19.c', f, lp, 'Route.url: marker loop', 'neither a character loop over pattern_out nor a loop over its split at the marker')
+        return
     cvar = lp.target.id
     seq = src(lp.iter)
     # the literal bookkeeping variables: find the test `c != marker` whose body does `<len> += 1; continue`
@@ -336,6 +396,9 @@ def check(P, R):
     pname = [k for k, v in idxs.items() if v == {'self.params', 'self.filters', 'self.filters_out'}]
     pidx = [st for st in walk_shallow(f.node) if isinstance(st, ast.AugAssign) and isinstance(st.target, ast.Name) and pname and st.target.id == pname[0] and is_const(st.value, 1)]
     ok = len(pidx) == 1
+    if not ok and pname:
+        sf_ = [split_form(f, l_) for l_ in walk_shallow(f.node) if isinstance(l_, ast.For)]
+        ok = any(x_ is not None and x_[0] == pname[0] for x_ in sf_)       # the index of enumerate(<split at the marker>[:-1])
     R.ob('C19.b', f, pidx[0] if pidx else f.node, ok, text='params / filters_out / filters indexed by one counter advanced once per marker', detail='' if ok else
          'names and filters are not consumed in step, one per wildcard')
 
